@@ -19,7 +19,7 @@ func init() {
 	serve("C14", "L4", "L1", "G6", "G6r")
 	serve("C15", "L1", "G3", "L7")
 	serve("C16", "G1", "G9", "G10", "R4")
-	serve("C17", "P1", "L2", "L3")
+	serve("C17", "P1", "L2", "L3", "G11")
 	serve("C18", "L1", "L2", "L6", "P2", "R4", "G10")
 	serve("C19", "P3", "P6", "L1", "L6")
 	serve("C20", "G2", "R4", "L2", "L3")
@@ -31,6 +31,6 @@ func init() {
 
 func init() {
 	// pseudo-property used only to validate the corpus in one run
-	serve("ALL", "T1", "T2", "T3", "T4", "T5", "T6", "T8", "B1", "B1n", "B2", "B3", "B3b", "B4", "B6", "B6m", "F1", "F2", "G1", "G2", "G3", "G4", "G5", "G6", "G6r", "G8", "G9", "G10",
+	serve("ALL", "T1", "T2", "T3", "T4", "T5", "T6", "T8", "B1", "B1n", "B2", "B3", "B3b", "B4", "B6", "B6m", "F1", "F2", "G1", "G2", "G3", "G4", "G5", "G6", "G6r", "G8", "G9", "G10", "G11",
 		"L1", "L2", "L3", "L4", "L6", "L7", "P1", "P2", "P3", "P3c", "P3w", "P4", "P5", "P6", "R1", "R2", "R3", "R4", "S1", "S2", "S3", "S4", "S5")
 }
